@@ -116,7 +116,7 @@ func RunConv(c ConvCase) *Sx {
 	var phases [][]Raw
 	var closedEarly bool
 	if c.Cfg.TLSConfig || c.Cfg.ImplicitTLS {
-		phases = runTLSConv(s, be, c)
+		phases = runTLSConvImpl(s, be, c)
 	} else {
 		sc := NewScriptConn(c.Phases[0])
 		sc.OnWrite = func(p []byte) { be.AddWire(p); be.SyncPoint() }
@@ -169,7 +169,10 @@ func cloneScript(s Script) Script {
 // serveOne runs Server.Serve on a listener that yields the one connection and
 // returns when the connection has been handled.
 func serveOne(s *smtp.Server, conn netConn) bool {
-	l := newOneListener(conn)
+	return serveOn(s, newOneListener(conn), conn)
+}
+
+func serveOn(s *smtp.Server, l *oneListener, conn netConn) bool {
 	done := make(chan struct{})
 	go func() {
 		s.Serve(l)
